@@ -8,6 +8,7 @@ package model
 // reads from the incremental snapshot must equal what it reads from createNewContext on the same store.
 
 import (
+	"strings"
 	"time"
 
 	"google.golang.org/protobuf/types/known/wrapperspb"
@@ -85,6 +86,12 @@ func verifPAMode(m int32) *securityBeta.PeerAuthentication {
 	return &securityBeta.PeerAuthentication{Mtls: &securityBeta.PeerAuthentication_MutualTLS{Mode: securityBeta.PeerAuthentication_MutualTLS_Mode(m)}}
 }
 
+func verifPASel(m int32) *securityBeta.PeerAuthentication {
+	pa := verifPAMode(m)
+	pa.Selector = &typeBeta.WorkloadSelector{MatchLabels: map[string]string{"app": "b"}}
+	return pa
+}
+
 func verifDR(hostName string, mode networking.ClientTLSSettings_TLSmode) *networking.DestinationRule {
 	return &networking.DestinationRule{Host: hostName, TrafficPolicy: &networking.TrafficPolicy{Tls: &networking.ClientTLSSettings{Mode: mode}}}
 }
@@ -146,6 +153,9 @@ func verifSnapWorldNew(paMode int32) *verifSnapWorld {
 		w.store.Configs[k] = append(w.store.Configs[k], config.Config{Meta: w.first[k], Spec: spec})
 	}
 	add(gvk.PeerAuthentication, "default", "ns2", verifPAMode(paMode))
+	// a workload-level policy in the namespace the sidecar only imports services from
+	w.store.Configs[gvk.PeerAuthentication] = append(w.store.Configs[gvk.PeerAuthentication],
+		config.Config{Meta: verifMeta(gvk.PeerAuthentication, "sel", "ns2", 3), Spec: verifPASel(paMode)})
 	add(gvk.DestinationRule, "dr", "ns1", verifDR("b.ns2.svc.cluster.local", networking.ClientTLSSettings_ISTIO_MUTUAL))
 	add(gvk.VirtualService, "vs", "ns1", verifVS("b.ns2.svc.cluster.local", "a.ns1.svc.cluster.local"))
 	add(gvk.Sidecar, "default", "ns1", verifSidecar("*/*"))
@@ -199,6 +209,20 @@ func (w *verifSnapWorld) mutate(k config.GroupVersionKind, op int, paMode int32)
 			return ConfigKey{Kind: kind.ServiceEntry, Name: "c.ns2.svc.cluster.local", Namespace: "ns2"}
 		}
 		return ConfigKey{Kind: kind.ServiceEntry, Name: "b.ns2.svc.cluster.local", Namespace: "ns2"}
+	}
+	if k == gvk.PeerAuthentication && op == 3 {
+		// the workload-level policy of ns2 is updated (or deleted when the drawn mode is UNSET)
+		var l []config.Config
+		for _, c := range w.store.Configs[k] {
+			if c.Name != "sel" {
+				l = append(l, c)
+			}
+		}
+		if paMode != 0 {
+			l = append(l, config.Config{Meta: verifMeta(k, "sel", "ns2", 3), Spec: verifPASel(paMode)})
+		}
+		w.store.Configs[k] = l
+		return ConfigKey{Kind: kind.PeerAuthentication, Name: "sel", Namespace: "ns2"}
 	}
 	first := w.first[k]
 	var spec config.Spec
@@ -314,6 +338,12 @@ func verifObserveSnapshot(ps *PushContext) *verifSnapObs {
 			o.add("scope.authn.mode."+ns, -1)
 		}
 	}
+	if sc.AuthnPolicies != nil {
+		for _, c := range sc.AuthnPolicies.GetPeerAuthenticationsForWorkload(WorkloadPolicyMatcher{WorkloadNamespace: "ns2", WorkloadLabels: map[string]string{"app": "b"}}) {
+			o.str("scope.authn.workload-policy", c.Name)
+			o.add("scope.authn.workload-policy.mode", int64(c.Spec.(*securityBeta.PeerAuthentication).GetMtls().GetMode()))
+		}
+	}
 	o.add("push.authn.global", int64(ps.AuthnPolicies.GetGlobalMutualTLSMode()))
 	if sc.AuthnPolicies != nil {
 		o.add("scope.authn.global", int64(sc.AuthnPolicies.GetGlobalMutualTLSMode()))
@@ -396,9 +426,13 @@ func verifCompareSnapshots(inc, fresh *verifSnapObs) {
 	}
 }
 
-func verifSnapStep(w *verifSnapWorld, old *PushContext, name string) (*PushContext, *PushContext) {
+func verifSnapStep(w *verifSnapWorld, old *PushContext, name string) (*PushContext, *PushContext, ConfigKey) {
 	k := verifSnapKinds[vp.Choice(name+".kind", len(verifSnapKinds))]
-	op := vp.Choice(name+".op", 3)
+	nOps := 3
+	if k == gvk.PeerAuthentication {
+		nOps = 4
+	}
+	op := vp.Choice(name+".op", nOps)
 	mode := vp.Int32(name + ".paMode")
 	vp.Assume(vp.And(mode >= 0, mode <= 3))
 	key := w.mutate(k, op, mode)
@@ -406,7 +440,7 @@ func verifSnapStep(w *verifSnapWorld, old *PushContext, name string) (*PushConte
 	inc.InitContext(w.env, old, &PushRequest{ConfigsUpdated: sets.New(key), Reason: NewReasonStats(ConfigUpdate)})
 	fresh := NewPushContext()
 	fresh.InitContext(w.env, nil, nil)
-	return inc, fresh
+	return inc, fresh, key
 }
 
 // One changed object of any kind: the incremental snapshot and a fresh snapshot give the same answers.
@@ -417,14 +451,47 @@ func VerifC01IncrementalSnapshot() {
 	ps0 := NewPushContext()
 	ps0.InitContext(w.env, nil, nil)
 	// a proxy connected under the old snapshot computed (and cached) its default scopes there
-	verifObserveSnapshot(ps0)
-	inc, fresh := verifSnapStep(w, ps0, "step1")
+	before, psBefore := verifObserveSnapshot(ps0), ps0
+	inc, fresh, key := verifSnapStep(w, ps0, "step1")
 	vp.Reach("updated")
 	if vp.Tier() > 0 {
-		verifObserveSnapshot(inc)
-		inc, fresh = verifSnapStep(w, inc, "step2")
+		before, psBefore = verifObserveSnapshot(fresh), fresh
+		inc, fresh, key = verifSnapStep(w, inc, "step2")
 	}
-	verifCompareSnapshots(verifObserveSnapshot(inc), verifObserveSnapshot(fresh))
+	after := verifObserveSnapshot(fresh)
+	verifCompareSnapshots(verifObserveSnapshot(inc), after)
+	verifReadSetClosed(psBefore, fresh, before, after, key)
+}
+
+// K8: the sidecar scope's recorded dependencies are closed under what the scope serves: if the change of one object
+// changes anything a sidecar reads through its scope, the new or the previous scope depends on that object (that is
+// what proxyDependentOnConfig consults; otherwise DefaultProxyNeedsPush filters the change out and the proxy keeps
+// the old configuration).
+func verifReadSetClosed(psBefore, ps *PushContext, before, after *verifSnapObs, key ConfigKey) {
+	scoped := func(o *verifSnapObs) ([]string, []int64) {
+		var t []string
+		var v []int64
+		for i := range o.tags {
+			if strings.HasPrefix(o.tags[i], "scope.") {
+				t, v = append(t, o.tags[i]), append(v, o.vals[i])
+			}
+		}
+		return t, v
+	}
+	bt, bv := scoped(before)
+	at, av := scoped(after)
+	changed := len(bt) != len(at)
+	if !changed {
+		for i := range bt {
+			changed = vp.Or(changed, vp.Or(bt[i] != at[i], bv[i] != av[i]))
+		}
+	}
+	sidecar := verifSnapProxy(SidecarProxy, "ns1", map[string]string{"app": "a"})
+	sidecar.SetSidecarScope(ps)
+	prev := verifSnapProxy(SidecarProxy, "ns1", map[string]string{"app": "a"})
+	prev.SetSidecarScope(psBefore)
+	depends := sidecar.SidecarScope.DependsOnConfig(key, ps.Mesh.RootNamespace) || prev.SidecarScope.DependsOnConfig(key, ps.Mesh.RootNamespace)
+	vp.Assert(vp.Implies(changed, depends), "sidecar-scope-depends-on-every-object-that-changes-what-it-serves")
 }
 
 // Mutant twin: "a snapshot never changes" must be refuted.
@@ -434,7 +501,7 @@ func VerifC01SnapshotTwin() {
 	w := verifSnapWorldNew(m0)
 	ps0 := NewPushContext()
 	ps0.InitContext(w.env, nil, nil)
-	_, fresh := verifSnapStep(w, ps0, "step1")
+	_, fresh, _ := verifSnapStep(w, ps0, "step1")
 	verifCompareSnapshots(verifObserveSnapshot(ps0), verifObserveSnapshot(fresh))
 }
 
